@@ -502,6 +502,70 @@ def call_form_oracle(rng, n_cases, res, hits, worst):
 CALL_COVERAGE = {}
 
 
+# ---- MASKED INPUT (session 4, after seeded change C04-19): the unit change applied by *masked arithmetic* -------------------------------------
+# A user who holds numpy masked arrays changes the unit with `x * a + b`; numpy leaves the raw buffer under masked cells untouched (it still
+# holds the file's fill value).  `apply` documents that masked cells become NaN, so the outputs in the two units must still be related by the
+# same map (NaN where NaN).  Own PRNG stream; the statement demanded is exactly C04's, on inputs whose masked cells are missing values.
+MASKED_CONFIGS = ("LinearScaling", "DeltaChange", "QuantileMapping", "ECDFM")
+
+
+def masked_oracle(rng, n_cases, res, hits, worst):
+    from ibicus import debias as D
+    for k in range(n_cases):
+        name = MASKED_CONFIGS[k % len(MASKED_CONFIGS)]
+        a, b = [(1.0, -273.15), (1.8, -459.67), (1.0, 273.15)][(k // len(MASKED_CONFIGS)) % 3]
+        np_seed = rng.randint(0, 2**31 - 2)
+        which = k % 3                      # the input that carries masked cells
+        nprs = np.random.RandomState(np_seed)
+        n, grid = 200 + 20 * (k % 5), (2, 1)
+        base = [285.0, 287.0, 289.0]
+        arrs = [np.ma.masked_array(base[i] + (3.0 + i) * nprs.standard_normal((n,) + grid)) for i in range(3)]
+        cells = sorted(int(v) for v in nprs.choice(n, size=3, replace=False))
+        arrs[which].data[cells, 0, 0] = -9999.0      # fill value under the mask, cell (0, 0) only: cell (1, 0) has no gap
+        arrs[which][cells, 0, 0] = np.ma.masked
+        conv = [x * a + b for x in arrs]              # masked arithmetic: raw buffer of masked cells is not converted
+        case = {"config": name, "mode": "nowindow", "a": a, "b": b, "via": "apply-masked", "np_seed": np_seed, "n": n, "grid": list(grid),
+                "masked_input": ["obs", "cm_hist", "cm_future"][which], "masked_time_steps": cells, "fill_value_under_mask": -9999.0}
+        try:
+            with warnings.catch_warnings():
+                warnings.simplefilter("ignore")
+                with np.errstate(all="ignore"):
+                    outs = []
+                    for args in (arrs, conv):   # a rejection of the missing values is equivariant when it happens in both units alike
+                        try:
+                            outs.append(np.asarray(getattr(D, name).from_variable("tas").apply(*args, progressbar=False), dtype=float))
+                        except Exception as ex:  # noqa: BLE001
+                            outs.append(type(ex).__name__)
+            if isinstance(outs[0], str) or isinstance(outs[1], str):
+                mx = 0.0
+                problem = None if outs[0] == outs[1] else (f"the run in the original unit gave {outs[0] if isinstance(outs[0], str) else 'an array'}, "
+                                                            f"in the new unit {outs[1] if isinstance(outs[1], str) else 'an array'}")
+                raise StopIteration
+            out1, out2 = outs
+            want = out1 * a + b
+            nanmis = int((np.isnan(want) != np.isnan(out2)).sum())
+            both = np.isfinite(want) & np.isfinite(out2)
+            mx = float(np.max(np.abs(want[both] - out2[both]))) if both.any() else 0.0
+            tol = REL_TOL * max(1.0, float(np.max(np.abs(want[both]))) if both.any() else 1.0)
+            problem = None
+            if nanmis:
+                problem = f"{nanmis} output entries are NaN in one unit and finite in the other"
+            elif mx > tol:
+                problem = f"output in the new unit deviates from a*out+b by {mx:.6g} (tolerance {tol:.3g})"
+        except StopIteration:
+            pass
+        except Exception as ex:  # noqa: BLE001
+            problem, mx = f"the run raised {type(ex).__name__}: {str(ex)[:200]}", float("inf")
+        key = "apply-masked:" + name
+        worst[key] = max(worst.get(key, 0.0), mx if np.isfinite(mx) else 1e300)
+        res.count(("apply-masked", name, a, b, which), True, sample={**case, "max_abs_dev": mx})
+        if problem:
+            hits.append((f"{name} via apply on masked arrays ({case['masked_input']} has masked time steps {cells} at cell (0,0), unit changed by masked "
+                         f"arithmetic) a={a:g} b={b:g}: {problem}", case, None))
+    return n_cases
+
+
+
 def call_text(call):
     return (f"failsafe={call.get('failsafe', False)}, parallel={call.get('parallel', False)}, nr_processes={call.get('nr_processes')}, "
             f"progressbar={call.get('progressbar', False)}, time axes {call.get('time_kinds')}, layouts {call.get('layouts')}")
@@ -1053,6 +1117,8 @@ def run(tier, res, force_search=False):
     res.extra["oracle_atypical_series_runs"] = atypical_oracle(random.Random(C.seed() * 15485863 + 604), 3 if (force_search or not lean_ok or mismatches) else 1,
                                                                quick, res, hits, worst)
     res.extra["oracle_float_map_near_ties_accepted"] = TIES["float_map_near_ties"]
+    res.extra["oracle_masked_input_runs"] = masked_oracle(random.Random(C.seed() * 15485863 + 704), (12 if quick else 72) * (3 if (force_search or not lean_ok or mismatches) else 1),
+                                                         res, hits, worst)
     res.extra["oracle_runs"] = k
     res.extra["ties_accepted"] = res.extra.get("ties_accepted", 0) + TIES["auto_bins"] + TIES["float_map_near_ties"]
     res.extra["oracle_auto_bin_ties_accepted"] = TIES["auto_bins"]
